@@ -12,6 +12,7 @@ import (
 
 	"verif/kf"
 	"verif/lang"
+	"verif/rt"
 	"verif/tlc"
 )
 
@@ -69,7 +70,7 @@ func C05(c *Ctx) *kf.Report {
 	rep := &kf.Report{Property: "C05", Level: "model_checking", Coverage: map[string]any{}}
 	rep.Assumptions = []string{
 		"exception fixtures: Base, ErrA extends Base implements Marked, ErrA2 extends ErrA, ErrB extends Base implements Rooted, Other; interfaces Marked extends Tagged extends Rooted; every block prints entry/exit markers and catch blocks print getMessage() of the caught object",
-		"identity of the caught object is observed through its message (unique per throw site)",
+		"identity of the caught object is observed through its message (unique per throw site) in the shape programs, and directly ($e === $o, $e !== $o, $e against another instance, $e instanceof every fixture type) in the identity family: every thrown class x every clause type that matches it",
 		"the exit-status clause is replayed in real subprocesses of bin/origami built from the working tree",
 	}
 	rng := c.Rng()
@@ -79,6 +80,90 @@ func C05(c *Ctx) *kf.Report {
 	compared, budget := langCompare(c, rep, "C05", progs, nil)
 	rep.Coverage["try_programs"] = nTry
 	rep.Coverage["over_step_budget"] = budget
+
+	// ---- the catch variable IS the thrown object: identity and instanceof of what each clause binds
+	{
+		classes, ifaces := lang.ExcTypes()
+		types := append(append([]string{}, classes...), ifaces...)
+		types = append(types, "\\Exception", "\\Throwable")
+		var sb strings.Builder
+		sb.WriteString(lang.ExcFixtureSource())
+		type idCase struct{ thrown, caught string }
+		var ids []idCase
+		for _, th := range classes {
+			for _, ct := range types {
+				if !lang.ExcIsA(th, strings.TrimPrefix(ct, "\\")) {
+					continue
+				}
+				k := len(ids)
+				ids = append(ids, idCase{th, ct})
+				fmt.Fprintf(&sb, "$o%d = new %s(\"m%d\");\n$other%d = new %s(\"m%d\");\ntry { throw $o%d; } catch (%s $e) {\n  echo \"I%d|\", ($e === $o%d) ? \"same\" : \"different\", \"|\", ($e !== $o%d) ? \"ne\" : \"eq\", \"|\", ($e === $other%d) ? \"same\" : \"different\", \"|\";\n", k, th, k, k, th, k, k, ct, k, k, k, k)
+				for _, t := range types {
+					fmt.Fprintf(&sb, "  echo ($e instanceof %s) ? \"1\" : \"0\";\n", t)
+				}
+				sb.WriteString("  echo \"\\n\";\n}\n")
+			}
+		}
+		r := rt.Run(sb.String(), rt.Opts{})
+		if r.ParseErr != "" || r.Panic != "" || r.Uncaught != "" {
+			rep.Add(kf.Mismatch{ID: "C05/identity/kind=script-failed", Expected: "script runs", Observed: r, ObsKey: "failed", Input: sb.String()})
+		}
+		got := map[string]string{}
+		for _, l := range strings.Split(r.Out, "\n") {
+			if f := strings.SplitN(l, "|", 2); len(f) == 2 {
+				got[f[0]] = f[1]
+			}
+		}
+		for k, ic := range ids {
+			want := "same|eq|different|"
+			for _, t := range types {
+				if lang.ExcIsA(ic.thrown, strings.TrimPrefix(t, "\\")) {
+					want += "1"
+				} else {
+					want += "0"
+				}
+			}
+			if g := got[fmt.Sprintf("I%d", k)]; g != want {
+				rep.Add(kf.Mismatch{ID: fmt.Sprintf("C05/identity/thrown=%s/caught=%s", ic.thrown, strings.TrimPrefix(ic.caught, "\\")), Expected: want, Observed: g, ObsKey: g,
+					Input: map[string]any{"format": "($e === thrown)|($e !== thrown)|($e === another instance)|instanceof " + strings.Join(types, ","), "script": tailStr(sb.String(), 600)}})
+			}
+		}
+		rep.Coverage["identity_cases"] = len(ids)
+	}
+
+	// ---- wherever the throw statement sits, the innermost enclosing try whose clause matches handles it
+	{
+		dir, _ := os.MkdirTemp("", "verif-c05inc-")
+		defer os.RemoveAll(dir)
+		os.WriteFile(filepath.Join(dir, "thrower.php"), []byte("<?php\necho \"[in-include]\";\nthrow new ErrA(\"from-include\");\n"), 0o644)
+		os.WriteFile(filepath.Join(dir, "outer.php"), []byte("<?php\ninclude \""+filepath.Join(dir, "thrower2.php")+"\";\necho \"[not-reached]\";\n"), 0o644)
+		os.WriteFile(filepath.Join(dir, "thrower2.php"), []byte("<?php\nthrow new ErrA2(\"from-nested-include\");\n"), 0o644)
+		sites := []struct{ name, decl, stmt, msg string }{
+			{"function", "function t1() { throw new ErrA(\"m1\"); }", "t1();", "m1"},
+			{"nested-functions", "function t2a() { throw new ErrA2(\"m2\"); }\nfunction t2() { t2a(); echo \"[not-reached]\"; }", "t2();", "m2"},
+			{"method", "class T3 {\n  public function go() { throw new ErrA(\"m3\"); }\n}", "(new T3())->go();", "m3"},
+			{"static-method", "class T4 {\n  public static function go() { throw new ErrA(\"m4\"); }\n}", "T4::go();", "m4"},
+			{"closure", "", "$f = function () { throw new ErrA(\"m5\"); }; $f();", "m5"},
+			{"constructor", "class T6 {\n  public function __construct() { throw new ErrA(\"m6\"); }\n}", "$x = new T6();", "m6"},
+			{"included-file", "", "include \"" + filepath.Join(dir, "thrower.php") + "\";", "from-include"},
+			{"include-in-function", "function t8() { include \"" + filepath.Join(dir, "thrower2.php") + "\"; }", "t8();", "from-nested-include"},
+			{"nested-include", "", "include \"" + filepath.Join(dir, "outer.php") + "\";", "from-nested-include"},
+			{"array-callback", "", "array_map(function ($v) { throw new ErrA(\"m10\"); }, [1]);", "m10"},
+		}
+		siteOK := 0
+		for _, st := range sites {
+			src := lang.ExcFixtureSource() + st.decl + "\necho \"[start]\";\ntry {\n  try { " + st.stmt + " echo \"[after-throw]\"; } catch (ErrB $e) { echo \"[wrong-clause]\"; } finally { echo \"[inner-finally]\"; }\n} catch (Marked $e) { echo \"[caught:\", $e->getMessage(), \"]\"; } finally { echo \"[outer-finally]\"; }\necho \"[end]\";\n"
+			r := rt.Run(src, rt.Opts{})
+			want := "[start][inner-finally][caught:" + st.msg + "][outer-finally][end]"
+			got := strings.ReplaceAll(r.Out, "[in-include]", "")
+			if got != want || r.Uncaught != "" || r.Panic != "" || r.ParseErr != "" {
+				rep.Add(kf.Mismatch{ID: "C05/throw-site=" + st.name, Expected: want, Observed: map[string]any{"out": r.Out, "uncaught": tailStr(r.Uncaught, 200), "panic": tailStr(r.Panic, 200), "parse": r.ParseErr}, ObsKey: got, Input: src})
+			} else {
+				siteOK++
+			}
+		}
+		rep.Coverage["throw_sites"] = len(sites)
+	}
 
 	// ---- process paths
 	ok := runTLC(rep, tlc.Run{SpecDir: c.SpecDir(), Module: "Process", Cfg: "Process.cfg",
